@@ -87,6 +87,7 @@ static const int op_class[NOPS] = {0, 0, 0, 0, 0, 0, 0, 0, 0, 0, 0, 0, 0, 0, 1, 
 static uint64_t run_op(int opv) {
   uint64_t s = gseed * 1000003ull + (uint64_t)opv;      // the variant changes the data only
   const int op = opv % NOPS;
+  const int var = opv / NOPS;      // 0 .. NVAR-1: also selects dimensions and operand magnitudes where an operation has a choice
   uint64_t h = 0xCBF29CE484222325ull;
   // an NTT120 module has accelerated entry points only: under a mask that denies them its table is empty, nothing to call
   if (g_cpu_mask && (op == 7 || (op >= 22 && op <= 24))) return h;
@@ -141,7 +142,7 @@ static uint64_t run_op(int opv) {
         const uint64_t n = k ? NSMALL : NBIG;
         int64_t *a = al(8 * n), *b = al(8 * n), *r = al(8 * n);
         uint8_t* tmp = al(znx_small_single_product_tmp_bytes(m));
-        fill_small(a, n, &s, 14); fill_small(b, n, &s, 14);
+        fill_small(a, n, &s, var == 0 ? 14 : var == 1 ? 35 : 40); fill_small(b, n, &s, var == 0 ? 14 : var == 1 ? 3 : 2);   // wide times narrow too
         znx_small_single_product(m, r, a, b, tmp); h = fnv(h, r, 8 * n);
         free(a); free(b); free(r); free(tmp);
       }
@@ -351,8 +352,8 @@ static uint64_t run_op(int opv) {
       delete_module_info(m);
       break;
     }
-    case 25: {  // own FFT64 module
-      const uint64_t n = 64;
+    case 25: {  // own FFT64 module (a dimension per variant: modules of different dimensions are built side by side)
+      const uint64_t n = var == 0 ? 64 : var == 1 ? 32768 : 65536;
       MODULE* m = new_module_info(n, FFT64);
       int64_t *a = al(8 * n), *b = al(8 * n), *r = al(8 * n);
       uint8_t* tmp = al(znx_small_single_product_tmp_bytes(m));
@@ -364,7 +365,7 @@ static uint64_t run_op(int opv) {
     }
     case 26: {  // own FFT tables, both layouts and directions, two dimensions
       for (int k = 0; k < 2; ++k) {
-        const uint32_t m = k ? 32 : 256;
+        const uint32_t m = (k ? 32 : 256) << (4 * var);      // 32 / 256, 512 / 4096, 8192 / 65536
         double* v = al(16 * m);
         fill_dbl(v, 2 * m, &s);
         REIM_FFT_PRECOMP* f = new_reim_fft_precomp(m, 0);
